@@ -46,6 +46,11 @@ def build_pkg(ctx, schema_name, schema_files, config_name, must=True):
         if has_bytes:
             src = src.replace("//BYTES ", "")
         open(os.path.join(vh, os.path.basename(t)[:-5]), "w").write(src)
+    # the public namespace packages (tl, tl<namespace>) are linked too: with --split-internal each of them registers its items a second time (metamini)
+    nsdirs = sorted(d for d in os.listdir(os.path.join(ctx.scratch, out_rel)) if d.startswith("tl") and os.path.isdir(os.path.join(ctx.scratch, out_rel, d))
+                    and any(f.endswith(".go") for f in os.listdir(os.path.join(ctx.scratch, out_rel, d))))
+    with open(os.path.join(vh, "nsimports.go"), "w") as f:
+        f.write("//go:build verif\n\npackage main\n\nimport (\n" + "".join('\t_ "%s/%s"\n' % (imp, d) for d in nsdirs) + ")\n")
     b = os.path.join(ctx.work, "vh_" + name)
     rb = ctx.gobuild("./" + out_rel + "/vh", b, timeout=1200)
     if rb.rc != 0:
